@@ -150,7 +150,14 @@ inline void dumpNetlist(Circuit &circuit, std::ostream &o, const std::string &ta
 // ---------------------------------------------------------------------------------------------
 // design programs
 // ---------------------------------------------------------------------------------------------
-struct Val { std::variant<std::monostate, UInt, Bit> v; bool isBit() const { return v.index() == 2; } UInt &u() { return std::get<UInt>(v); } Bit &b() { return std::get<Bit>(v); } };
+enum class E4 { A, B, C, D };     // a 2-bit enumeration for Enum<E4> signals
+struct Val { std::variant<std::monostate, UInt, Bit, Enum<E4>> v; bool isBit() const { return v.index() == 2; } bool isEnum() const { return v.index() == 3; }
+             UInt &u() { return std::get<UInt>(v); } Bit &b() { return std::get<Bit>(v); } Enum<E4> &e() { return std::get<Enum<E4>>(v); } };
+// a compound signal: registered member-wise (reg(compound)), members carry their attached reset values
+struct S3 { UInt a; Bit b; Enum<E4> e; };
+}
+BOOST_HANA_ADAPT_STRUCT(nd::S3, a, b, e);
+namespace nd {
 
 struct Program { std::string id; std::vector<std::vector<std::string>> stmts; };
 
@@ -252,6 +259,29 @@ public:
 			if (t[2] == "b") { Bit x = t[3] == "1" ? Bit('1') : t[3] == "0" ? Bit('0') : Bit('x'); setB(t[1], x); }
 			else { std::string v = t[3] == "e" ? std::string("") : t[3]; std::string ls = std::to_string(v.size()) + "b" + v; UInt x = v.empty() ? UInt(0_b) : UInt(ls.c_str()); setU(t[1], x); }
 		}
+		else if (op == "toenum") {     // toenum NAME SRC [rst K] : Enum<E4> signal from a 2-bit UInt, optionally with an ATTACHED reset value (Enum::resetValue)
+			auto p = std::make_shared<Val>(); p->v.emplace<Enum<E4>>(asU(t[2]));
+			if (t.size() > 4 && t[3] == "rst") p->e().resetValue((E4)std::stoi(t[4]));
+			b.vars[t[1]] = p;
+		}
+		else if (op == "ofenum") { UInt x = get(t[2]).e().numericalValue(); setU(t[1], x); }
+		else if (op == "bitrst") {     // bitrst NAME SRC 0|1 : a Bit with an ATTACHED reset value (Bit::resetValue)
+			auto p = std::make_shared<Val>(); p->v.emplace<Bit>(asB(t[2])); p->b().resetValue(t[3] == "1"); b.vars[t[1]] = p;
+		}
+		else if (op == "regs") {       // regs NAME SRC : reg(SRC, RegisterSettings{}) - the reset value is the one attached to the signal object (if any)
+			Val &a = get(t[2]);
+			auto p = std::make_shared<Val>();
+			if (a.isEnum()) p->v.emplace<Enum<E4>>(reg(a.e(), RegisterSettings{}));
+			else if (a.isBit()) p->v.emplace<Bit>(reg(a.b(), RegisterSettings{}));
+			else p->v.emplace<UInt>(reg(a.u(), RegisterSettings{}));
+			b.vars[t[1]] = p;
+		}
+		else if (op == "regst") {      // regst RA RB RE A B E : the three signals packed into a struct (member-wise copies), reg(struct), unpacked again
+			S3 in{ get(t[4]).u(), get(t[5]).b(), get(t[6]).e() };
+			S3 r = reg(in, RegisterSettings{});
+			setU(t[1], r.a); setB(t[2], r.b);
+			auto p = std::make_shared<Val>(); p->v.emplace<Enum<E4>>(r.e); b.vars[t[3]] = p;
+		}
 		else if (op == "not") { Val &a = get(t[2]); if (a.isBit()) setB(t[1], ~a.b()); else setU(t[1], ~a.u()); }
 		else if (op == "bin") {
 			const std::string &o = t[2]; Val &a = get(t[3]); Val &c = get(t[4]);
@@ -288,6 +318,7 @@ public:
 				setU(t[1], mux(s.u(), tab));
 			}
 		}
+		else if (op == "var" && get(t[2]).isEnum()) { auto p = std::make_shared<Val>(); p->v.emplace<Enum<E4>>(get(t[2]).e()); b.vars[t[1]] = p; }
 		else if (op == "var") { Val &a = get(t[2]); if (a.isBit()) { Bit x = a.b(); setB(t[1], x); } else { UInt x = a.u(); setU(t[1], x); } }
 		else if (op == "loopvar") { auto p = std::make_shared<Val>(); p->v.emplace<UInt>(bw(t[2])); b.vars[t[1]] = p; }
 		else if (op == "close") { Val &d = get(t[1]); d.u() = asU(t[2]); }
@@ -303,6 +334,7 @@ public:
 			if (a.isBit()) { if (rst.empty()) setB(t[1], reg(a.b())); else setB(t[1], reg(a.b(), rst == "1" ? '1' : '0')); }
 			else { if (rst.empty()) setU(t[1], reg(a.u())); else { std::string ls = std::to_string(rst.size()) + "b" + rst; UInt rv(ls.c_str()); setU(t[1], reg(a.u(), rv)); } }
 		}
+		else if (op == "name" && get(t[1]).isEnum()) { get(t[1]).e().setName(t[2]); }
 		else if (op == "name") { Val &a = get(t[1]); if (a.isBit()) a.b().setName(t[2]); else a.u().setName(t[2]); }
 		else if (op == "area") { groupStack.push_back(std::make_unique<GroupScope>(t.size() > 2 && t[2] == "entity" ? GroupScope::GroupType::ENTITY : GroupScope::GroupType::AREA, t[1])); }
 		else if (op == "endarea") { if (groupStack.empty()) throw std::runtime_error("endarea"); groupStack.pop_back(); }
@@ -331,6 +363,8 @@ public:
 			if (a.isBit()) { Bit x = a.b(); x.exportOverride(c.b()); setB(t[1], x); }
 			else { UInt x = a.u(); x.exportOverride(asU(t[3])); setU(t[1], x); }
 		}
+		else if ((op == "tap" || op == "attr") && get(t[1]).isEnum()) { /* not offered for enum signals here */ }
+		else if (op == "attrp" && get(t[2]).isEnum()) { auto p = std::make_shared<Val>(); p->v.emplace<Enum<E4>>(get(t[2]).e()); b.vars[t[1]] = p; }
 		else if (op == "tap") { Val &a = get(t[1]); if (a.isBit()) tap(a.b()); else tap(a.u()); }
 		else if (op == "attrp") {      // attrp NAME SRC : NAME = attribute(SRC, ...) - the signal routed THROUGH the attribute node
 			Val &a = get(t[2]); SignalAttributes at; at.maxFanout = 4;
